@@ -605,6 +605,7 @@ class SolutionLemma(Contract):
 
     prop = "C04"
     name = "SolutionLemma"
+    lemma_files = (__import__("pathlib").Path(__file__).resolve().parent.parent / "lemmas" / "DecayODE.lean",)
     target = None
     strength = "U"
     trusted = ("Lean 4.33 kernel and Mathlib (NormedSpace.exp on matrices, Real.exp, Matrix.mulVec); axioms propext, Classical.choice, Quot.sound",)
